@@ -157,6 +157,44 @@ def param_terms(tier: str):
     return out
 
 
+# ---------------------------------------------------------------- NEAR
+B1 = 0.3
+B2 = 0.1 * 3            # 0.30000000000000004: numerically next to B1, not equal
+C1V = 1.0
+C2V = 1.0000000000000002
+
+
+def near_terms(tier: str):
+    """Parameters and constants that are numerically adjacent but unequal (grouping keys of the
+    consolidation rules, 'is one / is zero' tests): bases 0.3 and 0.1*3, constants 1 and 1 + 2^-52,
+    0 and 2^-60, 2 and nextafter(2)."""
+    out = []
+    fs = [Exp(x, B1), Exp(y, B2), Exp(x, B2), Exp(y, B1), Log(x, B1), Log(y, B2), Log(x, B2), Log(y, B1)]
+    import itertools as it
+    for a, b in it.permutations(fs, 2):
+        out.append(Mul(a, b))
+        out.append(Add(a, b))
+    for a, b, c in it.permutations(fs[:6], 3):
+        if tier == "thorough" or (a[0] == b[0] == c[0]):
+            out.append(Mul(a, b, c))
+            out.append(Add(a, b, c))
+    out.append(Exp(Log(x, B1), B2))
+    out.append(Log(Exp(x, B1), B2))
+    out.append(Exp(Log(x, B2), B2))
+    consts = [C1V, C2V, 0.9999999999999999, 0.0, 2.0 ** -60, -0.0, 2.0, 2.0000000000000004, -1.0, -0.9999999999999999]
+    for c in consts:
+        out.append(Mul(x, C(c)))
+        out.append(Mul(C(c), x, y))
+        out.append(Add(x, C(c)))
+        out.append(Pow(x, C(c)))
+        out.append(Pow(C(c), x) if c > 0 else Pow(C(2), Mul(C(c), x)))
+        out.append(Div(x, C(c)))
+        out.append(Div(C(c), x))
+        out.append(Mul(C(c), C(c), x))
+        out.append(Add(C(c), C(-c), x))
+    return out
+
+
 # ---------------------------------------------------------------- NARY
 FACTOR_KINDS = [
     C(0), C(1), C(2), C(-1), x, Neg(x), Recip(y), NPow(x, 2), NPow(y, 2), Root(x, 2), Root(y, 2),
